@@ -56,6 +56,7 @@ pub fn run(path: &str) -> ! {
     match engine {
       "c01" | "c13" | "c09" | "c10" | "c08" | "c14" | "c15" => crate::engines::c01::replay_case(&case),
       "c06" => crate::engines::c06::replay_case(&case),
+      "dmn" => replay_dmn(&case),
       other => format!("no replay handler for engine `{}`; the case is: {}", other, case),
     }
   };
@@ -72,4 +73,47 @@ pub fn run(path: &str) -> ! {
     println!("VIOLATION property={} replay={}", prop, path);
   }
   std::process::exit(if failing { 1 } else { 0 });
+}
+
+/// A recorded model evaluation: {"xml":…, "invocable":…, "ctx":[[name, string value]…] or FEEL context text, "expected": rendering}
+fn replay_dmn(case: &J) -> String {
+  use dmntk_feel::context::FeelContext;
+  let xml = case.get("xml").and_then(|x| x.as_str()).unwrap_or("");
+  let invocable = case.get("invocable").and_then(|x| x.as_str()).unwrap_or("");
+  let expected = case.get("expected").and_then(|x| x.as_str()).unwrap_or("");
+  let defs = match dmntk_model::parse(xml) {
+    Ok(d) => d,
+    Err(e) => return format!("FAIL model does not parse: {}", e),
+  };
+  let me = match dmntk_model_evaluator::ModelEvaluator::new(&defs) {
+    Ok(d) => d,
+    Err(e) => return format!("FAIL model does not build: {}", e),
+  };
+  if invocable.is_empty() {
+    return "PASS model loads".into();
+  }
+  let mut ctx = FeelContext::default();
+  match case.get("ctx") {
+    Some(J::Array(pairs)) => {
+      for p in pairs {
+        let k = p.get(0).and_then(|x| x.as_str()).unwrap_or("");
+        let v = p.get(1).and_then(|x| x.as_str()).unwrap_or("");
+        ctx.set_entry(&dmntk_feel::Name::from(k), Value::String(v.to_string()));
+      }
+    }
+    Some(J::String(text)) => {
+      let scope = dmntk_feel::Scope::default();
+      match dmntk_feel_parser::parse_context(&scope, text, false).ok().and_then(|n| dmntk_feel_evaluator::evaluate(&scope, &n).ok()) {
+        Some(Value::Context(c)) => ctx = c,
+        _ => return format!("MACHINERY input context does not evaluate: {}", text),
+      }
+    }
+    _ => {}
+  }
+  let got = show_value_full(&me.evaluate_invocable(invocable, &ctx));
+  if got == expected {
+    format!("PASS `{}` gives {}", invocable, got)
+  } else {
+    format!("FAIL `{}` gives {} but {} is prescribed", invocable, got, expected)
+  }
 }
